@@ -25,6 +25,10 @@ CLAIMED = {
    text="Deductive proof per function of the arbitrator's classification code: shouldGoOnChain returns true only at or after expiry minus the broadcast delta, exactly so for incoming HTLCs, for forwarded ones and after the grace period, and false before; in checkCommitChainActions the go-to-chain test for a received HTLC is evaluated only when its preimage is available, with the right delta and height, and every map insertion puts an HTLC under the action that its dust flag / go-to-chain verdict demands (FailDust, OutgoingWatch, Timeout, IncomingDustFinal, IncomingWatch and nothing else); checkRemoteDanglingActions and checkRemoteDiffActions fail back an HTLC only if it is absent from the confirmed commitment, its preimage is unknown and (before confirmation) it is about to expire, dust and non-dust separated; constructChainActions dispatches local / remote / remote-pending to the matching checker with the matching flag; prepContractResolutions creates the resolver kind that the action names, for the HTLC and resolution looked up at that HTLC's outpoint.",
    note="Site obligations inside loops are checked for an arbitrary iteration (loops are havocked, the facts used are local to the iteration). Not decided: that every HTLC is classified exactly once per pass (needs a ghost count over the loops), the timing of the block-driven state machine, resolver behaviour, 'exactly once' across the three close triggers. shouldGoOnChain's postconditions hold under RefundTimeout >= delta (candidate finding F3: uint32 underflow below that, unreachable at real block heights).",
    ref="DESIGN.md §4 C12"),
+ "C20": dict(
+   text="Deductive proof per function (K2 guard contracts) of the validation chain for gossip: validateChannelAnn1 returns nil only if four Verify calls returned true, each on the signature field, key field and double-hash digest of THIS announcement that the property names (bitcoin1/2, node1/2); ValidateChannelAnn / ValidateChannelUpdateAnn / VerifyChannelUpdateSignature / verifyChannelUpdate1Signature dispatch to and return the verdict of those checks; validateChannelUpdate1Fields enforces max_htlc != 0, >= min_htlc and <= capacity in msat; in handleChanAnnouncement the graph insertion (AddEdge) and the relay append are dominated by a nil verdict of ValidateChannelAnn for remote messages and of validateFundingTransaction unless AssumeChannelValid/alias; validateFundingTransaction succeeds only if the funding tx was fetched, the script built from this announcement's bitcoin keys matched an output and the UTXO lookup succeeded; in handleChanUpdate, UpdateEdge and the relay are dominated by a non-stale verdict, a nil verdict of ValidateChannelUpdateAnn called with the node key selected by the direction bit of this update from the stored channel; in handleNodeAnnouncement/addNode, AddNode is dominated by non-staleness and ValidateNodeAnn == nil and relay by IsPublicNode; IsStaleEdgePolicy / assertNodeAnnFreshness return 'fresh' only if the stored timestamp of that direction / node is strictly before the new one (and apply the zombie rule first).",
+   note="A-ext: Signature.Verify, ParsePubKey, DoubleHashB, DataToSign, the chain backend (FetchFundingTxWrapper, chanvalidate.Validate, GetUtxo) and the graph DB are opaque: the contracts pin which values flow into and out of them, not what they compute. Not decided: real signature semantics, ValidateNodeAnn's body and ChannelAnnouncement2/ChannelUpdate2 paths (only dispatch), orderings across calls (premature-message replay), rate limits, the KV/SQL graph stores.",
+   ref="DESIGN.md §4 C20"),
 }
 
 NOT_APPLICABLE = {
